@@ -57,6 +57,7 @@ type Prog struct {
 	localAliasByPos map[token.Pos]string
 	wrapCache       map[*Func][]ast.Expr
 	wrapEnv         map[*Func]*Env
+	freshFn         map[*Func]int
 	predCacheK      map[predKey]*predSummary
 	baselineKnown   map[string]bool   // unexported function names of the tree the rules were written for
 	sharedHelpers   map[*Func][]*Func // caller -> private helpers with several call sites it calls
